@@ -152,9 +152,6 @@ theorem sum_filtered (img k : Arr ℝ) (m n : ℕ) (hm : img.s0 = m) (hn : img.s
 
 /-! ## circular shifts (DFT shift theorem) -/
 
-theorem emod_range (n : ℕ) (i : ℕ) (hi : i ∈ range n) : ((i : ℤ)) % (n : ℤ) = i :=
-  Int.emod_eq_of_lt (by omega) (by have := mem_range.mp hi; omega)
-
 /-- summing `g((j - b) mod n)` over one period is summing `g` -/
 theorem sum_roll1 {A : Type*} [AddCommMonoid A] (n : ℕ) (g : ℤ → A) (b : ℤ) :
     ∑ j ∈ range n, g (((j : ℤ) - b) % n) = ∑ j ∈ range n, g j := by
